@@ -251,7 +251,8 @@ def run(ctx):
         if got != 'err ValueError':
             ctx.fail('stabilizer_state', 'a list with a non-adjacent anticommuting pair is not rejected with ValueError (%s)' % got, dict(stabs=lst))
     # dense export through the expansion over the stabilizer group (density_matrix), small and with nine or more generators
-    for n, r in [(rng.choice([1, 2, 3]), 0), (rng.choice([2, 3, 4]), 1), (9, 0), (10, 1)][:ctx.budget(3, 4)]:
+    small = [(rng.choice([1, 2, 3, 4]), None) for _ in range(ctx.budget(25, 300))]
+    for n, r in [(rng.choice([1, 2, 3]), 0), (rng.choice([2, 3, 4]), 1), (9, 0), (10, 1)][:ctx.budget(3, 4)] + small:
         rows, r = G.rand_tableau(rng, n, r)
         st = impl.state(rows, r)
         try:
@@ -259,6 +260,21 @@ def run(ctx):
             terms = sorted((O.from_gp(g, p), round(float(np.real(c)) * 2 ** n, 9)) for g, p, c in zip(dm.gs, dm.ps, dm.cs))
         except Exception as e:
             ctx.fail('StabilizerState.density_matrix', 'implementation raised %r' % e, dict(N=n, r=r)); continue
+        # the polynomial as returned (order, phases, weights) against the model's densityPoly (C12_density_*: Hermitian, trace
+        # one, rho.rho = 2^-r rho); then the property itself on the implementation: rho.rho = 2^-r rho through the library's own @
+        ctx.q('density_matrix', 'densitypoly %d %s' % (r, H.erows_ops(rows)), [(O.from_gp(g, p), complex(c)) for g, p, c in zip(dm.gs, dm.ps, dm.cs)],
+              lambda s_: [(O.from_gp(g, p), complex(float(c[0]), float(c[1]))) for g, p, c in E.dpoly(s_)])
+        if n - r <= 5:
+            try:
+                sq = (dm @ dm).reduce()
+                a_ = {O.from_gp(g, p)[0]: complex(c) * 1j ** int(p) for g, p, c in zip(sq.gs, sq.ps, sq.cs)}
+                b_ = {O.from_gp(g, p)[0]: complex(c) * 1j ** int(p) * 2.0 ** (-r) for g, p, c in zip(dm.gs, dm.ps, dm.cs)}
+                if set(a_) != set(b_) or any(abs(a_[k] - b_[k]) > 1e-12 for k in a_):
+                    ctx.fail('StabilizerState.density_matrix', 'rho @ rho is not 2^-r rho: the expansion does not denote a density matrix of rank 2^r', dict(N=n, r=r, rows=rows))
+                if abs(complex(dm.trace()) - 1) > 1e-12:
+                    ctx.fail('StabilizerState.density_matrix', 'trace of the expansion is not 1 (%s)' % dm.trace(), dict(N=n, r=r, rows=rows))
+            except Exception as e:
+                ctx.fail('StabilizerState.density_matrix', 'implementation raised %r in rho @ rho' % e, dict(N=n, r=r, rows=rows))
         want = sorted((o_, 1.0) for o_ in O.group_elements(rows[r:n], n))
         ctx.case(('density-export', n, r, tuple(rows)), n - r >= 2, sample=dict(op='density_matrix', N=n, r=r, terms=len(terms)))
         ctx.count('density-export:%d-generators' % (n - r))
